@@ -601,8 +601,29 @@ class Interp:
         it = i.term
         if not self.ctx.branch(z3.And(it >= 0, it < n)):
             self.raise_py(IndexError)
-        lst.seqs = [z3.Concat(z3.SubSeq(q, 0, it), z3.SubSeq(q, it + 1, n - it - 1)) if not (z3.is_int_value(z3.simplify(it)) and z3.simplify(it).as_long() == 0)
-                    else z3.SubSeq(q, 1, n - 1) for q in lst.seqs]
+        its = z3.simplify(it)
+        if z3.is_int_value(its) and its.as_long() == 0:
+            # del l[0]:  l == [head].T  (word equation), l' == T
+            new = []
+            for q in lst.seqs:
+                known = [kt[1] for kt in self.ctx.membership.known_tail if kt[0].eq(q)
+                         and (len(kt) < 3 or kt[2] is None or not self.ctx.feasible(z3.Not(kt[2])))]
+                if known:
+                    new.append(known[0])
+                    continue
+                from .engine import syntactic_tail
+                st = syntactic_tail(q)
+                if st is not None:
+                    new.append(st)
+                    continue
+                T = self.ctx.fresh('tail', q.sort())
+                self.ctx.assume(q == z3.Concat(z3.Unit(q[0]), T), defines=[T])
+                self.ctx.membership.equation(q, z3.Concat(z3.Unit(q[0]), T))
+                new.append(T)
+            lst.seqs = new
+        else:
+            lst.seqs = [z3.Concat(z3.SubSeq(q, 0, it), z3.SubSeq(q, it + 1, n - it - 1)) for q in lst.seqs]
+        lst.view = None
         self.ctx.writeback(lst)
 
     def list_append(self, lst, v):
@@ -907,7 +928,7 @@ class Interp:
             return z3.Or([self.equal(item, const_to_v(k)) for k in keys] + [z3.BoolVal(False)])
         if isinstance(cont, VList):
             if len(cont.seqs) == 1:
-                return z3.Contains(cont.seqs[0], z3.Unit(item.terms()[0]))
+                return self.ctx.membership.mem(cont.seqs[0], item.terms()[0])
         if isinstance(cont, VEmptyList):
             return z3.BoolVal(False)
         r = self.models.contains(self, cont, item)
